@@ -26,14 +26,19 @@ type workItem struct {
 }
 
 const aSlices = 3
+const bridgeSlices = 8
 const cSlices = 4
 
 func workItems(tier string) []workItem {
 	var w []workItem
 	// the long chain is the most expensive to build: first, so that it starts first
-	for _, ch := range []string{"long", "embedded", "ledger", "empty"} {
-		for k := 0; k < aSlices; k++ {
-			w = append(w, workItem{"a", ch, k, aSlices})
+	for _, ch := range []string{"bridge", "long", "embedded", "ledger", "empty"} {
+		sl := aSlices
+		if ch == "bridge" {
+			sl = bridgeSlices // lists longer than RpcMaxPageSize: every call decodes a thousand entries
+		}
+		for k := 0; k < sl; k++ {
+			w = append(w, workItem{"a", ch, k, sl})
 		}
 	}
 	bChains := []string{"embedded", "ledger", "empty"}
@@ -187,13 +192,16 @@ func run(c *xs.Ctx, r *xs.Result) {
 }
 
 var chainCache = map[string]*chainIndex{}
+var chainBuilt = map[string]time.Duration{}
 
 func getChain(c *xs.Ctx, name string) *chainIndex {
 	if ci, ok := chainCache[name]; ok {
 		return ci
 	}
+	t0 := time.Now()
 	n := buildChain(c, name)
 	ci := indexChain(n, name)
+	chainBuilt[name] = time.Since(t0)
 	chainCache[name] = ci
 	return ci
 }
@@ -202,7 +210,16 @@ var _ = vnode.Quiet
 
 func runA(c *xs.Ctx, r *xs.Result, it workItem) {
 	ci := getChain(c, it.Chain)
+	if d := chainBuilt[it.Chain]; d > 5*time.Second {
+		r.Note("chain %s built in %s", it.Chain, d.Round(time.Second))
+	}
 	ins := buildInstances(ci)
+	t1 := time.Now()
+	defer func() {
+		if d := time.Since(t1); d > 20*time.Second {
+			r.Note("slice %d/%d of chain %s: instances took %s", it.K, it.Of, it.Chain, d.Round(time.Second))
+		}
+	}()
 	for i, in := range ins {
 		if i%it.Of != it.K {
 			continue
